@@ -246,6 +246,22 @@ func familyInputs(r *Run, n int) map[string][]byte {
 		out["v6-bootparam-empty"] = append([]byte{1, 0, 0, 1}, tlvb(60, p)...)
 		out["v6-oro-many"] = append([]byte{1, 0, 0, 1}, tlvb(6, r.Bytes(minInt(n, 65000)&^1))...)
 	}
+	{ // adversarial length fields: every option type whose value is a run of 0xff (each pair reads as a huge
+		// item length / count), alone and inside an IA_NA; such inputs are mostly rejected - cheaply
+		run := make([]byte, minInt(n, 65000))
+		for i := range run {
+			run[i] = 0xff
+		}
+		for _, c := range knownV6Codes {
+			out[fmt.Sprintf("v6-ff-run-opt%d", c)] = append([]byte{1, 0, 0, 1}, tlvb(c, run)...)
+		}
+		out["v6-ff-run-in-iana"] = append([]byte{1, 0, 0, 1}, tlvb(3, append(make([]byte, 12), tlvb(15, clip(run, 60000))...))...)
+		out["v6-ff-run-message"] = append([]byte{1}, run...)
+		hdr := make([]byte, 240)
+		copy(hdr[236:], []byte{99, 130, 83, 99})
+		out["v4-ff-run-area"] = append(hdr, run...)
+		out["label-ff-run"] = run
+	}
 	{ // v4: maximal repeated options, many zero-length options
 		hdr := make([]byte, 240)
 		copy(hdr[236:], []byte{99, 130, 83, 99})
